@@ -897,8 +897,20 @@ func (c *Ctx) specCall(x *SCall) *Val {
 			pre := c.footprintEntries(vo, nil, True, name)
 			c.inOld = savedOld
 			for _, e := range post {
-				alts := []Term{Ge(e.id, c.Fr.OldTop), Eq(e.id, IntLit(0))}
+				alts := []Term{Ge(e.id, c.Fr.OldTop)}
 				for _, p := range pre {
+					// only identifiers of the same kind (sharing a heap array) can be carried over
+					share := false
+					for _, h1 := range p.heaps {
+						for _, h2 := range e.heaps {
+							if h1.name == h2.name {
+								share = true
+							}
+						}
+					}
+					if !share {
+						continue
+					}
 					alts = append(alts, Exists(p.qvars, And(p.guard, Eq(p.id, e.id))))
 				}
 				conj = append(conj, Forall(e.qvars, Implies(e.guard, Or(alts...))))
